@@ -125,14 +125,16 @@ check("C16", "repositories isolated; storage access stays inside the root", "exp
       [R("^TestC16$", 2400, 120000, steps=30)], variant="vfs")
 
 check("C10", "the directory is a valid OCI layout equal to the API state", "exploration",
-      "rapid state machine; oracle = OCI-layout validator after every step + index.json/API/model equality + dir-vs-mem, restart and mem-over-dir differentials",
+      "rapid state machine; oracle = OCI-layout validator after every step + index.json/API/model equality + dir-vs-mem, restart and mem-over-dir differentials; rapid histories with injected file-system faults, oracle = layout validator + restart differential",
       "Randomised stateful search on the dir store with a mem store driven in lock-step (nested names, three digest algorithms, indexes, artifacts, sessions, deletes, collections with "
       "EmptyRepo on/off at any step, restarts anywhere); after every step the tree is validated as an OCI layout and compared with the API and the model, and every read is compared "
-      "across dir/mem, across Close+reopen and against a mem store layered over the directory.",
+      "across dir/mem, across Close+reopen and against a mem store layered over the directory. TestC10Faults (vfs build): the k-th mutating file-system call of a generated history fails with EIO "
+      "(k uniform over the calls), the history continues; at the end the tree must be a valid layout and the running server and a new server on the directory must answer every read alike.",
       "Trusted: the validator in harness/layout.go (written from the image-layout spec wording quoted by the property); by-digest visibility of manifests touched by open finding "
       "orphaned-child (finding 12) is excluded from the differentials and counted.",
       "DESIGN.md §3 C10",
-      [R("^TestC10$", 3600, 60000, shards=(8, 16), steps=30), R("^TestC10FirstWrite$", 4000, 100000), R("^TestC10CloseFinal$", 640, 16000)])
+      [R("^TestC10$", 3600, 60000, shards=(8, 16), steps=30), R("^TestC10FirstWrite$", 4000, 100000), R("^TestC10CloseFinal$", 640, 16000),
+       R("^TestC10Faults$", 3000, 200000, variant="vfs")])
 
 check("C08", "upload sessions sequential, isolated, no residue", "exploration",
       "rapid state machine inside a testing/synctest bubble (virtual time, true quiescence) vs session model; residue scan of _uploads",
